@@ -618,7 +618,7 @@ def run_scenario(ck, hbin, hchk, sc, ops, tag, seedtag):
         ck.count("op:" + ("rnd-" if rnd else "") + routine)
         if o == "budget-exceeded":
             nonadd = routine == "rope" and objective in NON_ADDITIVE
-            issues.append(dict(kind="oracle", routine=routine, clause="terminates", cls="rope-livelock-under-a-non-additive-objective" if nonadd else "checkMotion-budget",
+            issues.append(dict(kind="oracle", routine=routine, clause="terminates", cls="rope-does-not-return-under-a-non-additive-objective (as before fix F173)" if nonadd else "checkMotion-budget",
                                detail="the routine asked more than 150000 motions without returning" + (" (objective %s)" % objective), objective=objective,
                                script=hdr + [line], observed=[o]))
             continue
@@ -706,11 +706,13 @@ def run_scenario(ck, hbin, hchk, sc, ops, tag, seedtag):
             elif routine == "rope":
                 # current code first, then the code before fix 695c3e72c (F9)
                 cur, _, old = m.partition(" | old ")
-                old, _, f173 = old.partition(" | f173 ")
-                if res["prefix"] != cur.split(" oob ")[0] and f173 and res["prefix"] == f173.split(" fo ")[0] and not f173.endswith(" fo 1"):
-                    # the tree prices the chord by its densified pieces (the repair proposed for F173)
-                    ck.count("rope:agrees-with-the-F173-fixed-variant")
+                old, _, chordv = old.partition(" | chord ")
+                mchord = chordv.split(" oob ")[0]
+                if res["prefix"] != cur.split(" oob ")[0] and chordv and res["prefix"] == mchord and not chordv.endswith(" fo 1"):
                     issues += pending_fails.get(line, [])
+                    issues.append(dict(kind="regress", fid="F173", routine="rope", clause="lockstep", cls="shortcut priced by its end points (code before fix cfb403c2a)",
+                                       detail="ropeShortcutPath behaves like the code before fix F173: the shortcut is priced by motionCost of its end points, "
+                                              "not by the pieces it is densified into", script=hdr + [line], observed=[o], model=[m]))
                     continue
                 if cur == "idx-error" or " oob 1" in cur:
                     issues.append(idx_err())
@@ -1448,7 +1450,7 @@ def run_chain(ck, hbin, sc, rng, tag):
         if impl is not None and rc == 0 and len(impl) == 4 and impl[3] == "budget-exceeded":
             ropetoll = obj in NON_ADDITIVE and any(st_.startswith("rope") for st_ in steps)
             issues.append(dict(kind="oracle", routine="rope" if ropetoll else "chain", clause="terminates",
-                               cls="rope-livelock-under-a-non-additive-objective" if ropetoll else "checkMotion-budget",
+                               cls="rope-does-not-return-under-a-non-additive-objective (as before fix F173)" if ropetoll else "checkMotion-budget",
                                detail="a step of the history asked more than 150000 motions without returning (objective %s)" % obj, objective=obj,
                                script=hdr + [line], observed=impl[-1:]))
             continue
@@ -1923,9 +1925,10 @@ MANIFEST = {
             "it is a violation). Round 7: every PathGeometric method is driven (keepAfter / keepBefore / getClosestIndex modelled and in lock-step, the "
             "rest judged against an independent Python reading), asymmetric objective (mechanical work) and Dubins space for the cost-aware "
             "routines, histories on one PathSimplifier object (freeStates on / off), a ptc sweep over every poll of simplify, boundary "
-            "paths (0 / 1 / 2 states, all equal, repeated states); F171 (interpolate() on an empty path) and F172 (perturbPath on fewer than two states) are fixed "
-            "and modelled as fixed; open finding F173 (ropeShortcutPath does not return under a non-additive objective; detected by a "
-            "checkMotion budget, no wall clock; proposed repair modelled as RopeEnv.chord).",
+            "paths (0 / 1 / 2 states, all equal, repeated states); F171 (interpolate() on an empty path), F172 (perturbPath on fewer than two states) and F173 (ropeShortcutPath "
+            "did not return under a non-additive objective) are fixed and modelled as fixed (RopeEnv.chord = pricing by the densified pieces; "
+            "the end-point pricing is the former variant with a witness theorem); the non-return detector (a checkMotion budget in the "
+            "recording validator, no wall clock) stays armed and is a violation.",
     "note": "Trusted: Lean kernel, the three standard axioms, the hand-written models outside the explored scripts, the harness "
             "(which compiles the two source files under test into its own translation unit, proxies the private rng_ and installs a "
             "scripted sampler), the Python oracle's geometry, boost's Dijkstra (assumed to return a shortest walk). IEEE rounding is "
